@@ -63,3 +63,54 @@ Definition same_set (l1 l2 : list bytes) : bool := inclb l1 l2 && inclb l2 l1.
 Definition countb (x : bytes) (l : list bytes) : nat := List.length (filter (bytes_eqb x) l).
 Definition same_multiset (l1 l2 : list bytes) : bool :=
   Nat.eqb (List.length l1) (List.length l2) && forallb (fun x => Nat.eqb (countb x l1) (countb x l2)) l1.
+
+(* ---- strings.TrimSpace on valid UTF-8 (unicode.IsSpace) --------------------------- *)
+Definition nb (a : ascii) : N := N_of_ascii a.
+Definition ascii_ws (a : ascii) : bool :=
+  let n := nb a in ((9 <=? n) && (n <=? 13))%N || (n =? 32)%N.
+(* U+0085, U+00A0 *)
+Definition ws2 (a b : ascii) : bool :=
+  (nb a =? 194)%N && ((nb b =? 133)%N || (nb b =? 160)%N).
+(* U+1680, U+2000..U+200A, U+2028, U+2029, U+202F, U+205F, U+3000 *)
+Definition ws3 (a b c : ascii) : bool :=
+  ((nb a =? 225)%N && (nb b =? 154)%N && (nb c =? 128)%N)
+  || ((nb a =? 226)%N && (nb b =? 128)%N &&
+      (((128 <=? nb c) && (nb c <=? 138))%N || (nb c =? 168)%N || (nb c =? 169)%N || (nb c =? 175)%N))
+  || ((nb a =? 226)%N && (nb b =? 129)%N && (nb c =? 159)%N)
+  || ((nb a =? 227)%N && (nb b =? 128)%N && (nb c =? 128)%N).
+
+Fixpoint ltrim (l : bytes) : bytes :=
+  match l with
+  | a :: r1 =>
+      if ascii_ws a then ltrim r1 else
+      match r1 with
+      | b :: r2 =>
+          if ws2 a b then ltrim r2 else
+          match r2 with
+          | c :: r3 => if ws3 a b c then ltrim r3 else l
+          | [] => l
+          end
+      | [] => l
+      end
+  | [] => []
+  end.
+
+(* on the reversed string *)
+Fixpoint rtrim_rev (l : bytes) : bytes :=
+  match l with
+  | c :: r1 =>
+      if ascii_ws c then rtrim_rev r1 else
+      match r1 with
+      | b :: r2 =>
+          if ws2 b c then rtrim_rev r2 else
+          match r2 with
+          | a :: r3 => if ws3 a b c then rtrim_rev r3 else l
+          | [] => l
+          end
+      | [] => l
+      end
+  | [] => []
+  end.
+
+Definition trim_space (s : bytes) : bytes := rev (rtrim_rev (rev (ltrim s))).
+
